@@ -114,15 +114,239 @@ def o3(h, st):
     h.done()
 
 
+# O4 padding with frozen orbitals: polynomial identities in symbolic RDMs and integrals ---------------------------------------------------
+
+import itertools
+
+
+def _register_takebak_model():
+    """pyscf.lib.takebak_2d(out, a, idx, idy) is documented as  out[idx[:,None], idy] += a  (a C routine that only accepts numeric arrays): modelled as that
+    statement when the arrays hold symbolic entries"""
+    import numpy as np
+    from pyscf.lib import takebak_2d
+    from tverif import interp as _i
+
+    def m(interp, f, args, kw):
+        out, a, idx, idy = args[:4]
+        out[np.asarray(idx)[:, None], np.asarray(idy)] += a
+        return out
+    _i._MODELS[id(takebak_2d)] = m
+    _i.MODEL_DOC[("pyscf.lib", "takebak_2d")] = "out[idx[:,None], idy] += a (pyscf documentation)"
+
+
+def o4_structures(tier):
+    sts = [{"occ": [2, 2, 0], "frozen": [0]}, {"occ": [2, 2, 0], "frozen": [1]}, {"occ": [2, 2, 0], "frozen": [0, 2]}, {"occ": [2, 0, 0], "frozen": [2]},
+           {"occ": [2, 2, 0], "frozen": []}]
+    if tier != "quick":
+        sts += [{"occ": [2, 2, 0, 0], "frozen": [0, 3]}, {"occ": [2, 2, 2, 0], "frozen": [0, 1]}, {"occ": [2, 2, 2, 0], "frozen": [1]}]
+    return sts
+
+
+class _MockMol:
+    pass
+
+
+@contract("C13", "O4.pad_rdms_restricted.identities", level="S", structures=o4_structures, targets=[(RD, "pad_rdms_with_frozen_orbitals_restricted")],
+          native_samples=lambda st, rnd, tier: [{"seed": rnd.randint(0, 10 ** 6)}])
+def o4(h, st):
+    """for EVERY active-space one- and two-particle RDM (symbolic entries, no symmetry assumed) and EVERY set of molecular integrals (symbolic h_pq symmetric,
+    (pq|rs) with the 8-fold symmetry of real orbitals), each frozen selection on 3 (4) orbitals: the padded matrices have the full-space shape, their active blocks
+    are the inputs, trace(gamma_full) == trace(gamma) + 2 n_frozen_occupied, and the full-space contraction  sum h gamma_full + 1/2 sum (pq|rs) Gamma_full  equals the
+    active-space energy expression with the frozen orbitals folded into core constant and one-body integrals (openfermion's get_active_space_integrals, executed on
+    the same symbols); the arrays passed in are unchanged"""
+    import numpy as np
+    from openfermion.ops.representations.interaction_operator import get_active_space_integrals
+    _register_takebak_model()
+    occ, frozen = st["occ"], st["frozen"]
+    n = len(occ)
+    conc = None if h.symbolic else h.ctx.concrete
+    rs = None if h.symbolic or "seed" not in conc else np.random.default_rng(int(conc["seed"]))
+    cache = {}
+
+    def sym(name):
+        if h.symbolic:
+            return h.real(name)
+        if name not in cache:
+            cache[name] = float(conc[name]) if name in conc else (float(rs.normal()) if rs is not None else 0.0)
+        return cache[name]
+    hh = np.empty((n, n), dtype=object)
+    for p_ in range(n):
+        for q_ in range(n):
+            hh[p_, q_] = sym(f"h_{min(p_, q_)}{max(p_, q_)}")
+    chem = {}
+
+    def eri(p_, q_, r_, s_):
+        a, b = (min(p_, q_), max(p_, q_)), (min(r_, s_), max(r_, s_))
+        key = min((a, b), (b, a))
+        return sym("v_" + "".join(str(x) for pair in key for x in pair))
+    gof = np.empty((n,) * 4, dtype=object)
+    for p_, q_, r_, s_ in itertools.product(range(n), repeat=4):
+        gof[p_, q_, r_, s_] = eri(p_, s_, q_, r_)            # openfermion order: g[p,q,r,s] = (ps|qr)
+    act = [i for i in range(n) if occ[i] > 0 and i not in frozen] + [i for i in range(n) if occ[i] == 0 and i not in frozen]
+    focc = [i for i in frozen if occ[i] > 0]
+    na = len(act)
+    g1 = np.empty((na, na), dtype=object)
+    for u, v in itertools.product(range(na), repeat=2):
+        g1[u, v] = sym(f"d1_{u}{v}")
+    g2 = np.empty((na,) * 4, dtype=object)
+    for idx in itertools.product(range(na), repeat=4):
+        g2[idx] = sym("d2_" + "".join(map(str, idx)))
+    if not h.symbolic:
+        hh, gof, g1, g2 = hh.astype(float), gof.astype(float), g1.astype(float), g2.astype(float)
+    mol = _MockMol()
+    mol.uhf, mol.n_mos, mol.n_active_mos, mol.mo_occ = False, n, na, np.array(occ)
+    mol.frozen_occupied, mol.active_mos = list(focc), list(act)
+    b1, b2 = snapshot(g1.tolist()), snapshot(g2.tolist())
+    one_f, two_f = h.call(RD, "pad_rdms_with_frozen_orbitals_restricted", mol, g1, g2)
+    h.check("arrays passed to the padding are unchanged", snapshot(g1.tolist()) == b1 and snapshot(g2.tolist()) == b2)
+    h.check("full-space shapes", tuple(one_f.shape) == (n, n) and tuple(two_f.shape) == (n,) * 4)
+    tr_f, tr_a = 0, 0
+    for p_ in range(n):
+        tr_f = tr_f + one_f[p_, p_]
+    for u in range(na):
+        tr_a = tr_a + g1[u, u]
+    h.check_close("trace(gamma_full) == trace(gamma) + 2 n_frozen_occupied", tr_f, tr_a + 2 * len(focc))
+    ok = True
+    for u, v in itertools.product(range(na), repeat=2):
+        d = one_f[act[u], act[v]] - g1[u, v]
+        ok = ok and (d.is_zero() if hasattr(d, "is_zero") else abs(d) < 1e-12)
+    h.check("active block of the padded one-particle matrix is the input", bool(ok))
+    ok = True
+    for idx in itertools.product(range(na), repeat=4):
+        d = two_f[tuple(act[k] for k in idx)] - g2[idx]
+        ok = ok and (d.is_zero() if hasattr(d, "is_zero") else abs(d) < 1e-12)
+    h.check("active block of the padded two-particle matrix is the input", bool(ok))
+    # energies
+    e_full = 0
+    for p_, q_ in itertools.product(range(n), repeat=2):
+        e_full = e_full + hh[p_, q_] * one_f[p_, q_]
+    for p_, q_, r_, s_ in itertools.product(range(n), repeat=4):
+        e_full = e_full + eri(p_, q_, r_, s_) * two_f[p_, q_, r_, s_] * 0.5
+    core, h_a, g_a = get_active_space_integrals(hh, gof, list(focc), list(act))
+    e_act = core
+    for u, v in itertools.product(range(na), repeat=2):
+        e_act = e_act + h_a[u, v] * g1[u, v]
+    for u, v, w, x in itertools.product(range(na), repeat=4):
+        e_act = e_act + g_a[u, w, x, v] * g2[u, v, w, x] * 0.5        # (uv|wx) = g[u,w,x,v]
+    h.check_close("full-space energy contraction == active-space energy with folded frozen orbitals", e_full, e_act, tol=1e-9)
+    h.done()
+
+
+def o4b_structures(tier):
+    sts = [{"occ": [[1, 1, 0], [1, 0, 0]], "frozen": [[0], [0]]}, {"occ": [[1, 1, 0], [1, 0, 0]], "frozen": [[1], [0]]}, {"occ": [[1, 1, 0], [1, 0, 0]], "frozen": [[0, 2], [1]]},
+           {"occ": [[1, 1, 0], [1, 1, 0]], "frozen": [[0], []]}, {"occ": [[1, 1, 0], [1, 0, 0]], "frozen": [[], []]}, {"occ": [[1, 1, 0], [1, 1, 0]], "frozen": [[1], [0, 2]]}]
+    if tier != "quick":
+        sts += [{"occ": [[1, 1, 1, 0], [1, 0, 0, 0]], "frozen": [[0, 3], [0]]}, {"occ": [[1, 1, 0, 0], [1, 1, 0, 0]], "frozen": [[0], [1, 3]]}]
+    return sts
+
+
+@contract("C13", "O4b.pad_rdms_unrestricted.identities", level="S", structures=o4b_structures, targets=[(RD, "pad_rdms_with_frozen_orbitals_unrestricted")],
+          native_samples=lambda st, rnd, tier: [{"seed": rnd.randint(0, 10 ** 6)}])
+def o4b(h, st):
+    """unrestricted form, per spin channel independent frozen selections: for EVERY (alpha, beta) one-particle and (alpha-alpha, alpha-beta, beta-beta) two-particle
+    active-space RDM (symbolic entries) and EVERY set of spin-resolved integrals (symbolic, with the symmetries of real orbitals): shapes, active blocks,
+    trace(gamma_s,full) == trace(gamma_s) + n_frozen_occupied(s), and the full-space contraction  sum_s h_s gamma_s + 1/2 (aa) + (ab) + 1/2 (bb)  equals the
+    active-space energy expression with the integrals folded by SecondQuantizedMolecule._get_active_space_integrals_uhf (itself under contract C04.O8, executed on the
+    same symbols); the arrays passed in are unchanged"""
+    import numpy as np
+    from tangelo.toolboxes.molecular_computation.molecule import SecondQuantizedMolecule
+    _register_takebak_model()
+    occ, frozen = st["occ"], st["frozen"]
+    n = len(occ[0])
+    conc = None if h.symbolic else h.ctx.concrete
+    rs = None if h.symbolic or "seed" not in conc else np.random.default_rng(int(conc["seed"]))
+    cache = {}
+
+    def sym(name):
+        if h.symbolic:
+            return h.real(name)
+        if name not in cache:
+            cache[name] = float(conc[name]) if name in conc else (float(rs.normal()) if rs is not None else 0.0)
+        return cache[name]
+
+    def pair(a, b):
+        return (min(a, b), max(a, b))
+
+    def eri(block, p_, q_, r_, s_):
+        a, b = pair(p_, q_), pair(r_, s_)
+        key = min((a, b), (b, a)) if block != 1 else (a, b)
+        return sym(f"v{block}_" + "".join(str(x) for pr in key for x in pr))
+    hs = [np.empty((n, n), dtype=object) for _ in range(2)]
+    for s_ in range(2):
+        for p_, q_ in itertools.product(range(n), repeat=2):
+            hs[s_][p_, q_] = sym(f"h{s_}_{min(p_, q_)}{max(p_, q_)}")
+    gof = [np.empty((n,) * 4, dtype=object) for _ in range(3)]
+    for b_ in range(3):
+        for p_, q_, r_, s_ in itertools.product(range(n), repeat=4):
+            gof[b_][p_, q_, r_, s_] = eri(b_, p_, s_, q_, r_)        # openfermion order g[p,q,r,s] = (ps|qr); for the alpha-beta block p,s are alpha and q,r beta
+    act = [[i for i in range(n) if occ[s_][i] > 0 and i not in frozen[s_]] + [i for i in range(n) if occ[s_][i] == 0 and i not in frozen[s_]] for s_ in range(2)]
+    focc = [[i for i in frozen[s_] if occ[s_][i] > 0] for s_ in range(2)]
+    na = [len(act[0]), len(act[1])]
+    g1 = [np.empty((na[s_], na[s_]), dtype=object) for s_ in range(2)]
+    for s_ in range(2):
+        for u, v in itertools.product(range(na[s_]), repeat=2):
+            g1[s_][u, v] = sym(f"d1{s_}_{u}{v}")
+    shapes = [(na[0],) * 4, (na[0], na[0], na[1], na[1]), (na[1],) * 4]
+    g2 = [np.empty(shapes[b_], dtype=object) for b_ in range(3)]
+    for b_ in range(3):
+        for idx in itertools.product(*[range(k) for k in shapes[b_]]):
+            g2[b_][idx] = sym(f"d2{b_}_" + "".join(map(str, idx)))
+    if not h.symbolic:
+        hs, gof, g1, g2 = [x.astype(float) for x in hs], [x.astype(float) for x in gof], [x.astype(float) for x in g1], [x.astype(float) for x in g2]
+    mol = _MockMol()
+    mol.uhf, mol.mo_occ, mol.n_active_mos = True, [np.array(occ[0]), np.array(occ[1])], list(na)
+    mol.frozen_occupied, mol.active_mos = [list(focc[0]), list(focc[1])], [list(act[0]), list(act[1])]
+    before = snapshot([x.tolist() for x in g1] + [x.tolist() for x in g2])
+    one_f, two_f = h.call(RD, "pad_rdms_with_frozen_orbitals_unrestricted", mol, tuple(g1), tuple(g2))
+    h.check("arrays passed to the padding are unchanged", snapshot([x.tolist() for x in g1] + [x.tolist() for x in g2]) == before)
+    h.check("full-space shapes", all(tuple(x.shape) == (n, n) for x in one_f) and all(tuple(x.shape) == (n,) * 4 for x in two_f))
+    for s_ in range(2):
+        tr_f, tr_a = 0, 0
+        for p_ in range(n):
+            tr_f = tr_f + one_f[s_][p_, p_]
+        for u in range(na[s_]):
+            tr_a = tr_a + g1[s_][u, u]
+        h.check_close(f"spin {s_}: trace(gamma_full) == trace(gamma) + n_frozen_occupied", tr_f, tr_a + len(focc[s_]))
+    ok = True
+    sel = [(act[0],) * 4, (act[0], act[0], act[1], act[1]), (act[1],) * 4]
+    for b_ in range(3):
+        for idx in itertools.product(*[range(k) for k in shapes[b_]]):
+            d = two_f[b_][tuple(sel[b_][k][idx[k]] for k in range(4))] - g2[b_][idx]
+            ok = ok and (d.is_zero() if hasattr(d, "is_zero") else abs(d) < 1e-12)
+    h.check("active blocks of the padded two-particle matrices are the inputs", bool(ok))
+    factor = [0.5, 1.0, 0.5]
+    e_full = 0
+    for s_ in range(2):
+        for p_, q_ in itertools.product(range(n), repeat=2):
+            e_full = e_full + hs[s_][p_, q_] * one_f[s_][p_, q_]
+    for b_ in range(3):
+        for p_, q_, r_, s_ in itertools.product(range(n), repeat=4):
+            e_full = e_full + eri(b_, p_, q_, r_, s_) * two_f[b_][p_, q_, r_, s_] * factor[b_]
+    core, h_a, g_a = SecondQuantizedMolecule._get_active_space_integrals_uhf(mol, 0, hs, gof, [list(focc[0]), list(focc[1])], [list(act[0]), list(act[1])])
+    e_act = core
+    for s_ in range(2):
+        for u, v in itertools.product(range(na[s_]), repeat=2):
+            e_act = e_act + h_a[s_][u, v] * g1[s_][u, v]
+    for b_ in range(3):
+        for idx in itertools.product(*[range(k) for k in shapes[b_]]):
+            u, v, w, x = idx
+            e_act = e_act + g_a[b_][u, w, x, v] * g2[b_][idx] * factor[b_]     # (uv|wx) = g[u,w,x,v]
+    h.check_close("full-space energy contraction == active-space energy with folded frozen orbitals", e_full, e_act, tol=1e-9)
+    h.done()
+
+
 PROPERTY = {
     "level": "other",
     "explanation": "Deductive part: energy_from_rdms is proved to be the chemist-ordered contraction E_core + sum h gamma + 1/2 sum (pq|rs) Gamma for EVERY pair of RDMs (symbolic entries; the "
-                   "index transposition is the point), against independently computed PySCF integrals. Numerical tensors produced by PySCF solvers and simulated measurements: outside the verifier's reach. Bounded native contract runs with an independent check of energy, "
+                   "index transposition is the point), against independently computed PySCF integrals; and the padding of active-space RDMs with the frozen orbitals (restricted and unrestricted) "
+                   "is proved, for EVERY RDM and EVERY set of integrals (symbolic tensors) on each frozen selection of 3-4 orbitals, to keep the active blocks, to add the frozen electrons to the trace, to leave its "
+                   "arguments unchanged and to reproduce the active-space energy expression with folded frozen orbitals (polynomial identities, exact normal forms). Numerical tensors produced by PySCF solvers and simulated measurements: outside the verifier's reach. Bounded native contract runs with an independent check of energy, "
                    "Hermiticity, traces, padding and - the one frame condition of the property - bit-identity of the arrays passed to the padding functions.",
     "bounds": {"quick": "H2, H4 (frozen none / [0] / [0,3]), LiH (frozen core / non-contiguous), H4+ ROHF and UHF x FCI / CCSD / MP2 (about half); VQE-UCCSD on H2 in 4 encodings", "thorough": "all, plus H4 VQE"},
-    "assumptions": ["PySCF solvers, cirq simulation; tolerance 1e-6"],
+    "assumptions": ["PySCF solvers, cirq simulation; tolerance 1e-6", "pyscf.lib.takebak_2d modelled by its documented meaning out[idx[:,None], idy] += a when the arrays are symbolic",
+                    "numpy indexing / arithmetic executed natively on object arrays of exact polynomials", "openfermion's get_active_space_integrals executed natively on the same symbols (reference for the folded energy)"],
     "trusted_base": ["pyscf", "numpy", "cirq", "tverif AST interpreter only for the Tangelo-side functions it can execute"],
-    "technique": "contract-based deductive verification of the energy contraction (AST symbolic execution over symbolic RDM entries); bounded native contract checking (run-time post-conditions, frame by array snapshots) for solver outputs",
+    "technique": "contract-based deductive verification of the energy contraction and of the frozen-orbital padding (AST symbolic execution over symbolic RDM / integral tensors, exact normal forms); bounded native contract checking (run-time post-conditions, frame by array snapshots) for solver outputs",
 }
 
 
